@@ -379,9 +379,9 @@ def run(ctx):
                       {"correspondence": "harness build", "log": log[-2000:]}, found_input=False)
         ctx.coverage.update({"evaluations": 0, "distinct_nontrivial": 0})
         return LEVEL
-    n_scripts, n_steps = (260, 14) if quick else (3000, 24)
+    n_scripts, n_steps = (800, 14) if quick else (9000, 24)
     if broken:
-        n_scripts *= 3
+        n_scripts *= 2
     scripts, modes = [], []
     cdir = os.path.join(vlib.CORPUS, "C02")
     if os.path.isdir(cdir):
